@@ -469,7 +469,7 @@ def is_int_like(val):
     """
     try:
         return str(int(val)) == str(val)
-    except (TypeError, ValueError):
+    except (TypeError, ValueError, OverflowError):
         return False
 
 
